@@ -331,3 +331,32 @@ def val_family(seed, n, maxlen=3, budget=8000):
         trim_to_budget(d, budget)
         out.append(d)
     return out
+
+
+# ---------------------------------------------------------------- environment fallback (C18)
+def env_family(seed, n, maxlen=3, budget=6000):
+    rnd = random.Random(seed)
+    shapes = [("switch", "sw"), ("reqflag", "one"), ("reqflag", "opt"), ("reqflag", "count"),
+              ("arg", "one"), ("arg", "opt"), ("arg", "many"), ("arg", "some"), ("arg", "fallback"),
+              ("arg", "last"), ("arg", "fallback_with")]
+    out = []
+    while len(out) < n:
+        kind, arity = shapes[len(out) % len(shapes)]
+        vt = rnd.choice(["int", "str", "os"]) if kind == "arg" else "none"
+        var = f"BPAF_VERIF_V{len(out) % 3}"
+        it = leaf("e0", kind, arity, shorts=["-e"], longs=["--env0"], vt=vt, env=var,
+                  guard=(kind == "arg" and rnd.random() < 0.3))
+        others = [rnd.choice([sw("o1", "-o"), ar("o1", "opt", "int", "-o", env="BPAF_VERIF_W"), rf("o1", "count", "-o")])]
+        named = [it] + others if rnd.random() < 0.6 else others + [it]
+        shape = len(out) % 3
+        if shape == 0:
+            lvl = level(named, NOTAIL)
+        elif shape == 1:
+            lvl = level(named, postail(pos("p0", "opt")))
+        else:
+            lvl = level([sw("t", "-t")], cmdtail([cmd("one", level(named, NOTAIL))], optional=True))
+        d = mkdef(f"env{seed}_{len(out)}", lvl, maxlen=maxlen, extras=("unk",), spells=("sep", "eq"),
+                  words=("1", "x"), envvals=("UNSET", "1", "x", "2", "%FF"))
+        trim_to_budget(d, budget)
+        out.append(d)
+    return out
